@@ -329,31 +329,34 @@ func C06(p *core.Program, r *core.Report) {
 		if err != nil {
 			r.Undecided("U3", "CreateAbsoluteURL", err.Error())
 		}
-		pr := `url.ParseRequestURI($0)`
+		// the reference is the attribute value without the white space around it (as in the URL
+		// standard: leading and trailing blanks of an attribute are not part of the URL)
+		ref := `strings.TrimSpace($0)`
+		pr := `url.ParseRequestURI(` + ref + `)`
 		spec := core.DecisionSpec{
 			Atoms: map[string]string{
-				"empty":  q(`$0 == ""`),
+				"empty":  q(ref + ` == ""`),
 				"nobase": q(`$1 == nil`),
 				// a reference that starts with '#' (spelled with HasPrefix or as a test of the first
 				// byte; the empty string has been returned before)
 				// spellings of "starts with #" (the string is known to be non-empty at that point)
-				"fragment": `^(strings\.HasPrefix\(\$0,"#"\)|\$0\[0\] == 35|\$0\[:1\] == "#")$`,
-				"data":     q(`strings.HasPrefix($0,"data:")`),
-				"js":       q(`strings.HasPrefix($0,"javascript:")`),
+				"fragment": `^(strings\.HasPrefix\(` + regexp.QuoteMeta(ref) + `,"#"\)|` + regexp.QuoteMeta(ref) + `\[0\] == 35|` + regexp.QuoteMeta(ref) + `\[:1\] == "#")$`,
+				"data":     q(`strings.HasPrefix(` + ref + `,"data:")`),
+				"js":       q(`strings.HasPrefix(` + ref + `,"javascript:")`),
 				"uri.ok":   q(pr + `#1 == nil`),
 				"noscheme": q(pr + `#0.Scheme == ""`),
 				"nohost":   q(`url.URL.Hostname(` + pr + `#0) == ""`),
-				"parse.ok": q(`url.Parse($0)#1 == nil`),
+				"parse.ok": q(`url.Parse(` + ref + `)#1 == nil`),
 			},
 			Rules: []core.SpecRule{
-				{Name: "empty value", Guard: core.A("empty"), Outcome: "return $0"},
-				{Name: "no page URL", Guard: core.A("nobase"), Outcome: "return $0"},
-				{Name: "fragment-only", Guard: core.A("fragment"), Outcome: "return $0"},
-				{Name: "data:", Guard: core.A("data"), Outcome: "return $0"},
-				{Name: "javascript:", Guard: core.A("js"), Outcome: "return $0"},
-				{Name: "already absolute", Guard: core.And(core.A("uri.ok"), core.Not(core.A("noscheme")), core.Not(core.A("nohost"))), Outcome: "return $0"},
-				{Name: "unparseable", Guard: core.And(core.Or(core.Not(core.A("uri.ok")), core.A("noscheme"), core.A("nohost")), core.Not(core.A("parse.ok"))), Outcome: "return $0"},
-				{Name: "resolve against the page URL", Guard: core.True(), Outcome: "return url.URL.String(url.URL.ResolveReference($1,url.Parse($0)#0))"},
+				{Name: "empty value", Guard: core.A("empty"), Outcome: "return " + ref},
+				{Name: "no page URL", Guard: core.A("nobase"), Outcome: "return " + ref},
+				{Name: "fragment-only", Guard: core.A("fragment"), Outcome: "return " + ref},
+				{Name: "data:", Guard: core.A("data"), Outcome: "return " + ref},
+				{Name: "javascript:", Guard: core.A("js"), Outcome: "return " + ref},
+				{Name: "already absolute", Guard: core.And(core.A("uri.ok"), core.Not(core.A("noscheme")), core.Not(core.A("nohost"))), Outcome: "return " + ref},
+				{Name: "unparseable", Guard: core.And(core.Or(core.Not(core.A("uri.ok")), core.A("noscheme"), core.A("nohost")), core.Not(core.A("parse.ok"))), Outcome: "return " + ref},
+				{Name: "resolve against the page URL", Guard: core.True(), Outcome: "return url.URL.String(url.URL.ResolveReference($1,url.Parse(" + ref + ")#0))"},
 			},
 		}
 		core.CheckDecisionList(r, "U3", "CreateAbsoluteURL", paths, atoms, spec)
